@@ -20,6 +20,8 @@ def materialise(world, dirpath, samples, build="hg19", profile_yaml=True, extra=
     for g, p in paths.items():
         man["db"][g] = os.path.basename(p)
     ref = W.reference_sample(world)
+    if extra and extra.get("ref_softclip"):
+        ref["softclip"] = extra["ref_softclip"]
     for g in world["genes"]:
         if g.get("no_reads"):
             ref["genes"].pop(g["name"], None)
